@@ -1,0 +1,24 @@
+//go:build verif
+
+// Contracts for the deductive verifier in /verif (gvc). This file contains comments only:
+// it adds no code to the package, with or without the "verif" build tag.
+
+package sqlx
+
+//@ import "ariga.io/atlas/sql/migrate"
+//@ import "ariga.io/atlas/sql/schema"
+
+// ---------------------------------------------------------------------------------------
+// C17: SetReversible
+
+//@ func SetReversible(p *migrate.Plan) (err error)
+//@   requires p != nil
+//@   requires (forall i int :: 0 <= i && i < len(p.Changes) ==> p.Changes[i] != nil)
+//@   modifies p.Reversible
+//@   ensures reversible-iff-all: err == nil ==>
+//@           (p.Reversible == (forall i int :: 0 <= i && i < len(p.Changes) ==> migrate.GvcRevLen(p.Changes[i]) > 0))
+//@   ensures error-iff-bad-type: (err != nil) == (exists i int :: 0 <= i && i < len(p.Changes) && !migrate.GvcRevOK(p.Changes[i]))
+//@   ensures error-leaves-flag: err != nil ==> p.Reversible == old(p.Reversible)
+//@   loop 1 invariant 0 <= loopk && loopk <= len(loopx)
+//@   loop 1 invariant reversible == (forall j int :: 0 <= j && j < loopk ==> migrate.GvcRevLen(p.Changes[j]) > 0)
+//@   loop 1 invariant (forall j int :: 0 <= j && j < loopk ==> migrate.GvcRevOK(p.Changes[j]))
